@@ -53,7 +53,15 @@ def main():
                     continue
                 sh("git checkout -- . && git clean -fdq", cwd=WT)
                 rc, o = sh(f"git apply {d}/patch.diff", cwd=WT)
-                rec = {"refactoring": name, "applies": rc == 0}
+                how = "git apply"
+                if rc != 0:
+                    # /repo has later fix: commits touching the same lines: merge
+                    sh("git checkout -- . && git clean -fdq", cwd=WT)
+                    rc, o = sh(f"git apply --3way {d}/patch.diff && test -z \"$(git diff --name-only --diff-filter=U)\" && git reset -q", cwd=WT)
+                    how = "git apply --3way (the tree has later fix: commits)"
+                    if rc != 0:
+                        sh("git reset -q --hard && git clean -fdq", cwd=WT)
+                rec = {"refactoring": name, "applies": rc == 0, "applied_by": how}
                 if rc == 0:
                     env = {**os.environ, "PYTHONPATH": WT}
                     rc, o = sh("/venv/bin/python -m pytest -q -p no:cacheprovider tests 2>&1 | tail -2", cwd=WT, env=env)
